@@ -39,6 +39,10 @@ type Env struct {
 
 type evalErr struct{ msg string }
 
+// missingSiteErr: the clause speaks about a call that is no longer in the function. A goal that does
+// so cannot be established (it fails); a hypothesis that does so contributes nothing.
+type missingSiteErr struct{ callee string }
+
 func (e *Env) fail(format string, a ...interface{}) {
 	panic(evalErr{fmt.Sprintf(format, a...)})
 }
@@ -117,6 +121,14 @@ func hasQuant(x *Expr) bool {
 func (e *Env) evalBool(x *Expr) (out string) {
 	defer func() {
 		if r := recover(); r != nil {
+			if _, ok := r.(missingSiteErr); ok {
+				if e.pol > 0 {
+					out = "false"
+				} else {
+					out = "true"
+				}
+				return
+			}
 			if ee, ok := r.(evalErr); ok {
 				panic(unsupported(fmt.Sprintf("contract expression %q: %s", x.String(), ee.msg)))
 			}
@@ -993,6 +1005,12 @@ func (e *Env) selector(x *Expr) Val {
 }
 
 func (e *Env) siteMember(s *Site, m string) Val {
+	if s.Missing {
+		if m == "called" {
+			return Val{T: "false", Ty: boolT}
+		}
+		panic(missingSiteErr{s.Callee})
+	}
 	switch {
 	case m == "called":
 		return Val{T: s.Reach, Ty: boolT}
@@ -1140,6 +1158,12 @@ func (e *Env) callExpr(x *Expr) Val {
 		}
 		_, unbox := tr.smt.boxFn(tr.smt.sortOf(ty))
 		return Val{T: fmt.Sprintf("(%s (idata %s))", unbox, v.T), Ty: ty}
+	case "lastnow":
+		// instant of the most recent clock reading on the path to this point
+		if tr.curState == nil || tr.curState.lastNow == "" {
+			e.fail("lastnow(): no clock reading known here")
+		}
+		return Val{T: tr.curState.lastNow, Ty: tyMath}
 	case "has":
 		// has(m, k): key k is present in map m
 		if len(x.A) != 2 {
